@@ -22,14 +22,14 @@ pub fn def() -> PropDef {
     PropDef {
         id: "C14",
         level: "fault_enumeration",
-        rule: "(enumerated-cuts) for 1..3 messages handed over back to back: every single fault position - cut before / after the k-th request frame, cut before / after the k-th reply frame, 1..3 refused connection attempts before the first / after each cut - and every pair of such positions (exhaustive over this small space; the case index is mapped onto it). (random-faults) proptest tape -> op sequence over one real ReliableSender and one peer: send (1..12 unique messages), drop a kept handle, sleep (0 .. several back-off periods), refuse the next k connects, cut the connection now / before or after an upcoming frame in either direction, peer down (listener closed, connections cut) and up again, replies delayed; rarely an outage longer than 65 536 back-off periods (virtual time makes it cheap). After the faults end the peer is up and 70 virtual seconds pass (back-off is capped at 60 s). Oracle: every message whose handle is kept was delivered at least once and its handle resolved with exactly reply(m) = 'R:'+m, not before that reply was delivered to the sender; first deliveries are in hand-over order; no frame carrying m is written in an instant after the one in which m's handle was dropped; no handle resolves with another message's reply; the sender's tasks do not panic. Non-trivial: a connection failure happened while >= 1 message was sent but unacknowledged; distinct by op-sequence hash.",
+        rule: "(enumerated-cuts) for 1..4 messages handed over back to back: every single fault position - cut before / after the k-th request frame, cut before / after the k-th reply frame, 1..3 refused connection attempts - every pair of such positions, and for 1..2 messages every triple (exhaustive over this space of 2 482 cases; the case index is mapped onto it). (random-faults) proptest tape -> op sequence over one real ReliableSender and one peer: send (1..12 unique messages), drop a kept handle, sleep (0 .. several back-off periods), refuse the next k connects, cut the connection now / before or after an upcoming frame in either direction, peer down (listener closed, connections cut) and up again, replies delayed; rarely an outage longer than 65 536 back-off periods (virtual time makes it cheap). After the faults end the peer is up and 70 virtual seconds pass (back-off is capped at 60 s). Oracle: every message whose handle is kept was delivered at least once and its handle resolved with exactly reply(m) = 'R:'+m, not before that reply was delivered to the sender; first deliveries are in hand-over order; no frame carrying m is written in an instant after the one in which m's handle was dropped; no handle resolves with another message's reply; the sender's tasks do not panic. Non-trivial: a connection failure happened while >= 1 message was sent but unacknowledged; distinct by op-sequence hash.",
         assumptions: &[
             "a cut is a connection reset at a frame boundary (frames are atomic on the in-memory transport); both endpoints notice it at their next read/write",
             "the peer replies to every frame it reads, in order (the protocol's assumption behind FIFO pairing)",
             "harness build has overflow checks on, like the repository's own test profile",
         ],
         parts: vec![
-            Part { name: "enumerated-cuts", cfg_len: 1, tape_max: 0, quick: 1_400, thorough: 1_400, max_shrink_iters: 50, run: run_enumerated },
+            Part { name: "enumerated-cuts", cfg_len: 1, tape_max: 0, quick: 2_482, thorough: 2_482, max_shrink_iters: 50, run: run_enumerated },
             Part { name: "random-faults", cfg_len: 1, tape_max: 160, quick: 100_000, thorough: 3_000_000, max_shrink_iters: 400, run: run_random },
         ],
     }
@@ -401,7 +401,7 @@ pub fn space_size() -> u64 {
 
 fn build_space() -> Vec<(usize, Vec<Op>)> {
     let mut space: Vec<(usize, Vec<Op>)> = Vec::new();
-    for k in 1..=3usize {
+    for k in 1..=4usize {
         let pos = positions(k);
         for p in &pos {
             space.push((k, p.clone()));
@@ -411,6 +411,19 @@ fn build_space() -> Vec<(usize, Vec<Op>)> {
                 let mut ops = a.clone();
                 ops.extend(b.clone());
                 space.push((k, ops));
+            }
+        }
+        // every triple of positions for up to two messages
+        if k <= 2 {
+            for a in &pos {
+                for b in &pos {
+                    for c in &pos {
+                        let mut ops = a.clone();
+                        ops.extend(b.clone());
+                        ops.extend(c.clone());
+                        space.push((k, ops));
+                    }
+                }
             }
         }
     }
